@@ -3,7 +3,8 @@
 From PGV Require Import Base.Bytes Base.GoStr Base.Utf8.
 From PGV Require Import Extracted.SourceConst.
 From PGV Require Import Model.RuleText Spec.RuleTextSpec Proofs.RuleTextProofs Proofs.C14Final Run.Run_C14.
-From PGV Require Import Base.MiniGo Extracted.SourceFns Model.GoParse Proofs.GoParseProofs.
+From PGV Require Import Base.MiniGo Extracted.SourceFnsParse Model.GoParse Proofs.GoParseProofs.
+From PGV Require Import Extracted.SourceFnsSplit Model.GoSplit Proofs.GoSplitProofs.
 
 (* Splitting loses no characters: the pieces joined by the separator give back the text, up to
    one trailing separator.  For every byte string and every separator byte other than the quote
@@ -65,3 +66,13 @@ Proof. vm_compute. repeat split; congruence. Qed.
 Theorem C14_parser_from_source : forall s : str, run_parse fn_ParseValidNameKV s = Some (parse_kv s).
 Proof. exact parse_from_source. Qed.
 Print Assumptions C14_parser_from_source.
+
+(* fn_ValidNamesSplit is the syntax tree of ValidNamesSplit (valid/common.go), regenerated on every run.  Under the
+   semantics of Model/GoSplit.v (the for loop with its continue statements, the byte stack of internal/stack.go as
+   modelled, strings.Split for the fast path) it computes the model's names_split on every text of bytes and every
+   one-byte separator: the quote-aware splitter of the theorems above IS what the source text says. *)
+Theorem C14_splitter_from_source : forall (s : str) (seps : list byte),
+  forallb (fun c => N.ltb c 256) s = true -> (sep_of seps < 256)%N ->
+  run_split fn_ValidNamesSplit s seps = Some (names_split (sep_of seps) s).
+Proof. exact split_from_source. Qed.
+Print Assumptions C14_splitter_from_source.
